@@ -65,6 +65,15 @@ def py_rates(A, ls1, li1, ls2, li2, n, dt):
     return [x / 4 / (n1 * n2) for x in S]
 
 
+def py_purity(F, n):
+    """Re tr((F F^dagger)^2) / (tr F F^dagger)^2 of the sampled matrix F(s, i) = F[i*n + s] (binary64), independent of any SVD"""
+    rows = [[F[i * n + s] for i in range(n)] for s in range(n)]          # rows[s][i]
+    H = [[sum(rows[a][i] * rows[b][i].conjugate() for i in range(n)) for b in range(n)] for a in range(n)]
+    tr2 = sum((H[a][b] * H[b][a]).real for a in range(n) for b in range(n))
+    N = sum(abs(z) ** 2 for z in F)
+    return tr2 / (N * N) if N != 0 else None
+
+
 def single_input(o):
     return {"setup": o["setup"], "config_json (SPDCConfig; {} = SPDCConfig::default())": o.get("config"), "n": o["n"], "axes_mode": o["mode"], "signal_axis_rad_per_s": [fl(h) for h in o["ls"]],
             "idler_axis_rad_per_s": [fl(h) for h in o["li"]], "taus_s": [fl(t) for t in o["taus"]], "integrator": "Simpson{divs:50}",
@@ -105,11 +114,35 @@ def oracle(ctx, obs, max_py_cells):
                         nrm = [sum(abs(z) ** 2 for z in X) for X in A]
                         Bk, N12 = nrm[cross[0]] * nrm[cross[1]], nrm[0] * nrm[1]
                         cond = "violated" if Bk > N12 else "holds"
+                        # the proved bounds (C10_si_partial / C10_rate_lower): (sqrt B - sqrt N12)^2 <= 4 N12 rate <= (sqrt B + sqrt N12)^2
+                        hi = (math.sqrt(N12) + math.sqrt(Bk)) ** 2 / (4 * N12)
+                        if not fin(r):
+                            bucket = "nonfinite"
+                        elif r < 0:
+                            bucket = "negative"
+                        elif r <= hi * (1 + 1e-9):
+                            bucket = "(1, proved bound]"
+                        else:
+                            bucket = "above proved bound"
                         ctx.violation("S5", f"two-source rate {k} = {r!r} outside [0,1] at tau={tau!r} ({o['setup']}, n={n}, {axes} signal/idler axes; "
                                             f"cross-grid norm product / (N1 N2) = {Bk / N12!r}: norm condition {cond})",
-                                      {"kind": "range", "channel": k, "axes": axes, "norm_condition": cond},
-                                      dict(rep, tau=tau, channel=k, rate=r, expected="0 <= rate <= 1", cross_norm_ratio=Bk / N12,
+                                      {"kind": "range", "channel": k, "axes": axes, "norm_condition": cond, "si_in": bucket},
+                                      dict(rep, tau=tau, channel=k, rate=r, expected="0 <= rate <= 1", cross_norm_ratio=Bk / N12, proved_upper_bound=hi,
                                                                                            finding="coq/Findings/C10_si_range.v" if (k == "si" and axes == "unequal") else None))
+            # independent purity: trace form of the sampled matrix in Python, for EVERY side (no SVD, no Coq size limit)
+            Ppy = py_purity(A[0], n)
+            for k in ("ss", "ii"):
+                t, v = vis[k]
+                if not (t == 0.0 and fin(v) and abs(v - Ppy) <= SLACK):
+                    ctx.violation("S5", f"two-source visibility {k} = ({t!r}, {v!r}) differs from tr((FF+)^2)/(tr FF+)^2 = {Ppy!r} of the sampled JSA matrix ({o['setup']}, n={n})",
+                                  {"kind": "visibility_vs_purity", "channel": k, "oracle": "trace"}, dict(rep, channel=k, visibility=v, purity_trace=Ppy))
+            jd = fl(o["jsa_pointwise_rel_diff"]) if "jsa_pointwise_rel_diff" in o else 0.0
+            if not jd <= 1e-12:
+                ctx.violation("S5", f"jsa_range differs from sequential pointwise jsa on the same grid (max relative difference {jd!r}) ({o['setup']}, n={n})",
+                              {"kind": "jsa_range_vs_pointwise", "setup": o["setup"]}, dict(rep, max_rel_diff=jd), found_input=False)
+            if o.get("sv2") is None:
+                ctx.violation("S5", f"nalgebra try_svd of the sampled {n}x{n} JSA matrix did not return (harness-side call): the singular-value form of the purity clause "
+                                    f"was not evaluated for this case ({o['setup']})", {"kind": "svd_failed", "setup": o["setup"]}, rep, found_input=False)
             # clause: V_ss = V_ii = sum s^4 / (sum s^2)^2 at zero delay (1e-9)
             if o.get("sv2") is not None:
                 P = fl(o["sv4"]) / fl(o["sv2"]) ** 2
@@ -300,8 +333,7 @@ def correspondence(ctx, obs, max_n_q, max_goals):
         else:
             rep = single_input(o) if o["kind"] == "single" else {"setup1": o["setup1"], "setup2": o["setup2"], "n": o["n"]}
         if (what in ("rates", "pyth") and len(flags) != 3) or (what == "purity" and len(flags) != 4):
-            ctx.case_failures.append({"case": cid})
-            ctx.violation("S4", f"model evaluation failed for case {cid} ({what}, n={o['n']})", {"kind": "model_eval"}, dict(rep, output=txt[:400]), found_input=False)
+            unchecked_eval(ctx, "C10", cid)     # no output (time limit / crash): an unchecked obligation, not a disagreement
             continue
         if all(f == "true" for f in flags):
             ctx.cov["discharged"] += 1
@@ -328,18 +360,35 @@ def correspondence(ctx, obs, max_n_q, max_goals):
                       {"kind": "value", "channel": k}, {"case": cid, "kind": o["kind"], "tau": fl(o["taus"][1])}, found_input=False)
 
 
+def unchecked_eval(ctx, name, cid):
+    """a vm_compute evaluation that printed no result: counted as an unchecked obligation (like vlib's no-verdict goals)"""
+    ctx.cov["unchecked_cases"] = ctx.cov.get("unchecked_cases", 0) + 1
+    tag = (f"Cases/{name}", "no-verdict")
+    for i, f in enumerate(ctx.proof_failures):
+        if (f[0], f[1]) == tag:
+            ctx.proof_failures[i] = (f[0], f[1], f[2] + f", {cid}")
+            return
+    ctx.proof_failures.append((tag[0], tag[1], f"model evaluation(s) without output from coqc (time limit): {cid}"))
+
+
+def unknown_failing(ctx):
+    """a concrete failing input that is NOT a known finding (a known finding firing on the same run must not stop the search)"""
+    fs = load_findings()
+    return any(v["found_input"] and match_finding(v, fs, ctx.prop) is None for v in ctx.violations)
+
+
 def run(ctx):
     binp = build_harness(ctx)
-    msgs, spans = regen(ctx, ["hom", "pm_integrand"])
+    msgs, spans = regen(ctx, ["hom", "pm_integrand", "grid"])
     ctx.cov["translated_spans"] = {k: v for k, v in spans.items() if "hom" in v["file"]}
     for m in msgs:
         ctx.proof_failures.append(("Gen/HomSrc.v", "translator", m))
     proved = (not msgs) and prove(ctx, "C10")
     quick = ctx.tier == "quick"
-    ncases, max_side, npairs, npyth = (28, 10, 12, 36) if quick else (96, 24, 36, 120)
+    ncases, max_side, npairs, npyth, nforced = (28, 10, 12, 36, 1) if quick else (100, 24, 36, 120, 2)
     # corpus of inputs that violated the property text before (the witness of Findings/C10_si_range.v), then the generated cases
-    obs = run_harness(ctx, binp, ["c10", "corpus"]) + run_harness(ctx, binp, ["c10", ctx.seed, ncases, max_side, npairs, npyth])
-    oracle(ctx, obs, 10**4 if quick else 24**4)
+    obs = run_harness(ctx, binp, ["c10", "corpus"]) + run_harness(ctx, binp, ["c10", ctx.seed, ncases, max_side, npairs, npyth, nforced])
+    oracle(ctx, obs, 16**4 if quick else 24**4)
     okf, ffails, _ = coq_build(ctx, ["Findings/C10_si_range.vo"])
     if not okf:
         ctx.note("finding C10_si_range: the refuted lemma no longer compiles (not an obligation of the property)")
@@ -351,12 +400,12 @@ def run(ctx):
         correspondence(ctx, obs, 4 if quick else 6, 3 if quick else 12)
     else:
         ctx.note("correspondence skipped: Model/Hom2.v did not compile")
-    if (not proved or ctx.case_failures) and not any(v["found_input"] for v in ctx.violations):
+    if (not proved or ctx.case_failures) and not unknown_failing(ctx):
         ctx.log("S5 deep search for a failing input (obligations broken or model/implementation disagree)")
         for k in range(3):
             obs2 = run_harness(ctx, binp, ["c10", ctx.seed + 7919 * (k + 1), 64, 8, 0])
             oracle(ctx, obs2, 0)
-            if any(v["found_input"] for v in ctx.violations):
+            if unknown_failing(ctx):
                 break
     ctx.cov["rule"] = ("setup level: 4 configurations x 4 kinds of axes (identical; each beam's own centre with different widths; the setup's optimum range; "
                        "off-centre unequal) x sides 2..max x delays {0, two random}; each observation carries the eight jsa_range grids of the regions "
@@ -367,7 +416,8 @@ def run(ctx):
             "way the `spdc1 == spdc2` test comes out (C10_free_function_identical, C10_time_delays_equal_sources) and for a second source differing only in "
             "brightness (C10_brightness_invariant); measured on Rust with a.clone() and with scaled pump power / d_eff",
         "both = sum s^4/(sum s^2)^2 over singular values of the sampled JSA matrix": "proved for any unitary factorisation (C10_singular_values, "
-            "C10_setup_visibilities); nalgebra's complex SVD accuracy validated per input (1e-9)",
+            "C10_setup_visibilities); measured for every side against the SVD-free trace form tr((FF+)^2)/(tr FF+)^2 computed in Python from the jsa_range "
+            "samples (cross-checked against sequential pointwise jsa), exactly in Q for n <= 4/6, and against nalgebra's singular values (1e-9)",
         "rates ss, ii in [0,1] at every delay": "proved (C10_range_partial, C10_range_general)",
         "visibilities swap under signal<->idler relabelling (composition with C06)": "proved (C10_purity_exchange, every quadrature); measured Rust-vs-Rust on the "
             "with_swapped_signal_idler twin of every setup-level case",
